@@ -48,6 +48,7 @@ pub struct FnSk {
     pub extra_guards: Vec<String>,
     pub fn_index: usize,
     pub ret_ty: Option<String>,
+    pub returns_bool: bool,
     pub mut_self: bool,
     pub body: Vec<Sk>,
     pub errors: Vec<String>,
@@ -272,7 +273,14 @@ impl<'a> Walker<'a> {
         for b in &bools {
             body.push(Sk::Decl { name: b.clone(), init: BVal::Var(format!("p_{}", b), false) });
         }
-        let blk = f.block.clone();
+        let mut blk = f.block.clone();
+        if fn_returns_bool(f) {
+            // the tail expression of a bool function is its return value (rule T5)
+            if let Some(syn::Stmt::Expr(e, None)) = blk.stmts.last().cloned() {
+                let n = blk.stmts.len();
+                blk.stmts[n - 1] = syn::parse_quote!(return #e;);
+            }
+        }
         self.block(&blk, &mut body);
         FnSk {
             key: f.key.clone(),
@@ -289,6 +297,7 @@ impl<'a> Walker<'a> {
             extra_guards: self.extra_guards.clone(),
             fn_index: self.fn_index,
             ret_ty: callee_ret_ty(f),
+            returns_bool: fn_returns_bool(f),
             mut_self,
             body,
             errors: self.errors,
@@ -304,6 +313,11 @@ impl<'a> Walker<'a> {
             return n == "compare_exchange" || n == "cas_bin";
         }
         false
+    }
+    /// call of a flurry function whose Rust return type is `bool` (rule T5: its result can be tracked)
+    fn is_bool_flurry_call(&self, m: &syn::ExprMethodCall) -> bool {
+        let cands = self.candidates(&m.method.to_string(), m.args.len(), Some(true));
+        !cands.is_empty() && cands.iter().all(|f| fn_returns_bool(f)) && !cands.iter().any(|f| self.cfg.primitive_fns.contains(&f.key))
     }
     fn literalish(&self, e: &syn::Expr, names: &BTreeSet<String>, loop_depth: usize) -> bool {
         match e {
@@ -328,7 +342,7 @@ impl<'a> Walker<'a> {
                 } else if (n == "is_ok" || n == "is_err") && m.args.is_empty() {
                     self.is_cas_call(&m.receiver)
                 } else {
-                    false
+                    self.is_bool_flurry_call(m)
                 }
             }
             syn::Expr::Block(b) => self.block_tail_literalish(&b.block, names, loop_depth),
@@ -650,6 +664,20 @@ impl<'a> Walker<'a> {
                     self.expr(a, out);
                 }
                 out.push(Sk::Set { name: var.into(), val: BVal::Lit(true) });
+            }
+            syn::Expr::MethodCall(m) if self.is_bool_flurry_call(m) => {
+                self.expr(e, out);
+                let r = self.tmp("ret");
+                let mut done = false;
+                if let Some(Sk::Call { result, .. }) = out.last_mut() {
+                    *result = Some(r.clone());
+                    done = true;
+                }
+                if done {
+                    out.push(Sk::Set { name: var.into(), val: BVal::Var(r, false) });
+                } else {
+                    self.err("tracked result of a call that did not resolve", e.span());
+                }
             }
             syn::Expr::MethodCall(m) => {
                 let n = m.method.to_string();
@@ -1341,11 +1369,15 @@ impl<'a> Walker<'a> {
                 None
             }
             syn::Expr::Return(r) => {
+                let mut bv = BVal::Nondet;
                 if let Some(v) = &r.expr {
                     self.expr(v, out);
+                    if fn_returns_bool(self.f) {
+                        bv = self.bval_of(v);
+                    }
                 }
                 self.exit_scopes(0, out);
-                out.push(Sk::Return(BVal::Nondet));
+                out.push(Sk::Return(bv));
                 None
             }
             syn::Expr::Try(t) => {
@@ -1732,8 +1764,25 @@ impl<'a> Walker<'a> {
                         self.expr(a, out);
                     }
                 }
+                // what is retired: a value (Shared<V>, V a type parameter), a node/bin (Shared<BinEntry>), or something else
+                let mut kind = "ev_retire";
+                if name == "retire_shared" {
+                    if let Some(a0) = args.first() {
+                        let mut scratch = vec![];
+                        let t = self.expr(a0, &mut scratch).and_then(|v| v.ty);
+                        if let Some(t) = t {
+                            if let Some(inner) = wrap_inner(&t, "Shared") {
+                                if inner == "BinEntry" {
+                                    kind = "ev_retire_node";
+                                } else if self.f.impl_generics.contains(&inner) {
+                                    kind = "ev_retire_value";
+                                }
+                            }
+                        }
+                    }
+                }
                 match self.guard_of(&m.receiver) {
-                    Some(g) => out.push(self.ev("ev_retire", vec![g, "1".into()], m, line)),
+                    Some(g) => out.push(self.ev(kind, vec![g, "1".into()], m, line)),
                     None => self.err("retire through an untraceable guard", m.span()),
                 }
                 return None;
@@ -1835,6 +1884,13 @@ impl<'a> Walker<'a> {
             "is_null" | "is_some" | "is_none" | "is_ok" | "is_err" => None,
             _ => None,
         }
+    }
+}
+
+pub fn fn_returns_bool(f: &FnInfo) -> bool {
+    match &f.sig.output {
+        syn::ReturnType::Type(_, t) => crate::emit::toks(&**t) == "bool",
+        _ => false,
     }
 }
 
